@@ -53,6 +53,9 @@ pub struct Case {
     /// (virtual ms, 'H' | 'I' | 'T'), sorted by time
     pub sigs: Vec<(u64, char)>,
     pub horizon: u64,
+    /// indices of runs that fail by PANICKING (in the connector, i.e. in the top-level part of the
+    /// run) rather than by returning an error: for the loop that is a failed run like any other
+    pub panics: Vec<usize>,
 }
 
 impl Case {
@@ -75,19 +78,27 @@ impl Case {
         )
     }
     pub fn descr(&self) -> String {
-        format!(
+        let mut d = format!(
             "p={};h={};r={};s={}",
             self.period_s,
             self.horizon,
             self.runs_tok(),
             self.sigs_tok()
-        )
+        );
+        if !self.panics.is_empty() {
+            d.push_str(&format!(
+                ";x={}",
+                list(&self.panics.iter().map(|i| i.to_string()).collect::<Vec<_>>())
+            ));
+        }
+        d
     }
     pub fn parse(s: &str) -> Option<Case> {
         let mut period_s = None;
         let mut horizon = None;
         let mut runs = None;
         let mut sigs = None;
+        let mut panics = vec![];
         for f in s.split(';') {
             let (k, v) = f.split_once('=')?;
             match k {
@@ -120,6 +131,13 @@ impl Case {
                     }
                     sigs = Some(l);
                 }
+                "x" => {
+                    if v != "." {
+                        for x in v.split(',') {
+                            panics.push(x.parse().ok()?);
+                        }
+                    }
+                }
                 _ => return None,
             }
         }
@@ -128,6 +146,7 @@ impl Case {
             runs: runs?,
             sigs: sigs?,
             horizon: horizon?,
+            panics,
         };
         if c.period_s == 0 || c.sigs.windows(2).any(|w| w[0].0 > w[1].0) {
             return None;
@@ -218,10 +237,12 @@ pub fn run_case(c: &Case) -> Obs {
             let n = Arc::new(AtomicUsize::new(0));
             let runaway = Arc::new(AtomicBool::new(false));
             let durs: Arc<Vec<u64>> = Arc::new(c.runs.iter().map(|r| r.0).collect());
+            let panics: Arc<Vec<usize>> = Arc::new(c.panics.clone());
             let (log2, n2, runaway2) = (log.clone(), n.clone(), runaway.clone());
             let conn = agent::verif::connector::<MemTransport, _>(move || {
                 let (log, n, runaway, durs) =
                     (log2.clone(), n2.clone(), runaway2.clone(), durs.clone());
+                let panics = panics.clone();
                 Box::pin(async move {
                     let i = n.fetch_add(1, Ordering::SeqCst);
                     log.lock()
@@ -241,6 +262,9 @@ pub fn run_case(c: &Case) -> Obs {
                         .unwrap()
                         .1
                         .push((Instant::now() - t0).as_millis() as u64);
+                    if panics.contains(&i) {
+                        panic!("scripted panic in run #{i}");
+                    }
                     Err(anyhow::anyhow!("scripted connect failure #{i}"))
                 })
             });
@@ -413,12 +437,14 @@ fn realtime_cases(thorough: bool) -> Vec<Case> {
         runs: runs.iter().map(|ok| (0, *ok)).collect(),
         sigs: sigs.to_vec(),
         horizon: h,
+        panics: vec![],
     };
     let slow = |p: u64, runs: &[(u64, bool)], h: u64| Case {
         period_s: p,
         runs: runs.to_vec(),
         sigs: vec![],
         horizon: h,
+        panics: vec![],
     };
     let mut v = vec![
         // success restores the normal period: runs at 0, p, 2p, …
@@ -533,7 +559,28 @@ fn gen_cases(opts: &Opts, rng: &mut Rng, sink: &mut Sink) -> Vec<Case> {
             runs: vec![],
             sigs: vec![],
             horizon: horizon_for(p, 80),
+            panics: vec![],
         });
+    }
+    // a run that fails by panicking is a failed run: retried after the back-off, signals still work
+    for &p in &[1u64, 60, 300, 3600] {
+        for panics in [vec![0], vec![1], vec![0, 1, 2], vec![2, 5]] {
+            cases.push(Case {
+                period_s: p,
+                runs: vec![(0, false), (2000, false), (0, false)],
+                sigs: vec![],
+                horizon: horizon_for(p, 7),
+                panics: panics.clone(),
+            });
+            let t = 60_000 + 137 + 1000 * panics[0] as u64;
+            cases.push(Case {
+                period_s: p,
+                runs: vec![],
+                sigs: vec![(t, 'H'), (t + 200_000 + 126, 'T')],
+                horizon: horizon_for(p, 7),
+                panics,
+            });
+        }
     }
     for &p in PERIODS {
         // the shortest history that shows three consecutive retries
@@ -542,6 +589,7 @@ fn gen_cases(opts: &Opts, rng: &mut Rng, sink: &mut Sink) -> Vec<Case> {
             runs: vec![],
             sigs: vec![],
             horizon: (60 + 2 * p.max(60).min(240)) * 1000 + 500,
+            panics: vec![],
         });
         if p < 60 {
             cases.push(Case {
@@ -549,6 +597,7 @@ fn gen_cases(opts: &Opts, rng: &mut Rng, sink: &mut Sink) -> Vec<Case> {
                 runs: vec![],
                 sigs: vec![],
                 horizon: (60 + 2 * p) * 1000 + 500,
+                panics: vec![],
             });
         }
         for (pi, runs) in pats.iter().enumerate() {
@@ -560,6 +609,7 @@ fn gen_cases(opts: &Opts, rng: &mut Rng, sink: &mut Sink) -> Vec<Case> {
                     runs: runs.clone(),
                     sigs: vec![],
                     horizon: horizon_for(p, k),
+                    panics: vec![],
                 });
             }
             // (b) one signal placed relative to the timeline the implementation itself produces
@@ -570,6 +620,7 @@ fn gen_cases(opts: &Opts, rng: &mut Rng, sink: &mut Sink) -> Vec<Case> {
                 runs: runs.clone(),
                 sigs: vec![],
                 horizon: horizon_for(p, 6),
+                panics: vec![],
             };
             let o = run_case(&base);
             sink.count("probe_runs");
@@ -595,6 +646,7 @@ fn gen_cases(opts: &Opts, rng: &mut Rng, sink: &mut Sink) -> Vec<Case> {
                             runs: runs.clone(),
                             sigs: vec![(t, k)],
                             horizon: base.horizon,
+                            panics: vec![],
                         });
                     }
                     // a SIGHUP there, and an exit signal later / a second SIGHUP
@@ -607,6 +659,7 @@ fn gen_cases(opts: &Opts, rng: &mut Rng, sink: &mut Sink) -> Vec<Case> {
                                 runs: runs.clone(),
                                 sigs: vec![(t, 'H'), (t2, k2)],
                                 horizon: base.horizon,
+                                panics: vec![],
                             });
                         }
                     }
@@ -656,11 +709,18 @@ fn gen_cases(opts: &Opts, rng: &mut Rng, sink: &mut Sink) -> Vec<Case> {
             }
         }
         sigs.sort();
+        // some of the failures are panics in the top-level part of the run
+        let panics: Vec<usize> = if rng.chance(1, 3) {
+            (0..8).filter(|_| rng.chance(1, 3)).collect()
+        } else {
+            vec![]
+        };
         cases.push(Case {
             period_s: p,
             runs,
             sigs,
             horizon,
+            panics,
         });
     }
     cases
@@ -727,7 +787,7 @@ pub fn main(opts: &Opts) {
             // C07: a peer that hangs up on every connect, 80 times in a row: the retry delay must stay
             // positive (no busy loop), the loop must stay alive
             for &p in &[1u64, 60, 61, 300, 3600] {
-                cases.push(Case { period_s: p, runs: vec![], sigs: vec![], horizon: horizon_for(p, 80) });
+                cases.push(Case { period_s: p, runs: vec![], sigs: vec![], horizon: horizon_for(p, 80), panics: vec![] });
             }
         } else {
             cases = gen_cases(opts, &mut rng, &mut sink);
